@@ -2585,6 +2585,11 @@ class VM:
                     break
                 holder = holder._prototype
             obj.set(key_str, value)
+        elif isinstance(obj, (str, int, float)):
+            # strict mode: a property cannot be created on a primitive value
+            raise JSTypeError(
+                f"Cannot create property '{key_str}' on {js_typeof(obj)} '{to_string(obj)}'"
+            )
 
     def _delete_property(self, obj: JSValue, key: JSValue) -> bool:
         """Delete property from object."""
